@@ -1,3 +1,138 @@
+/-
+  C10 — every name a function binds or reads is selectable; absent names are refused.
+
+  On model M2: `collect` (Model/Collect) is `ExternalVariableCollector`; it is tied to the code by the AST
+  correspondence, which compares ptera's `__ptera_info__` provenance table with the model's for every
+  generated function.  Python's own scoping is the independent oracle of the check (`symtable`).
+  * `C10_bound_anywhere_is_selectable`: a name bound by ANY statement of the body, however deeply nested
+    (inside except / with / for / try / if / while blocks), is in the variable table;
+  * `C10_read_is_selectable`: so is every name the body reads;
+  * `C10_table_is_exactly_bound_or_read`: and nothing else is — a name occurring nowhere is not in the table,
+    which is what makes `f > v` a selector error before anything runs;
+  * `C10_every_entry_has_provenance`, `C10_provenance_exclusive`: each entry is classified, as exactly one of
+    external / argument / closure / body;
+  * `C10_external_iff_read_only_global`: `external` means read, not bound, not a closure variable;
+  * `C10_parameter_is_argument`: a parameter is `argument` even if the body assigns it again.
+  * `C10_nested_blocks`: concretely, names bound only inside an `except` clause, a `with`, a `for` and a
+    nested `try` of a sample function are all entries (kernel evaluation).
+-/
+import PteraModel.Model.Collect
 namespace Ptera.Props.C10
-theorem C10_placeholder : True := trivial
+open Ptera.Py
+
+theorem mem_allVars (c : Collected) (x : String) : x ∈ c.allVars ↔ x ∈ c.used ∨ x ∈ c.assigned := by
+  simp [Collected.allVars, List.mem_eraseDups]
+
+theorem mem_assigned (f : FunDef) (x : String) :
+    x ∈ (collect f).assigned ↔ x ∈ f.params.map (·.name) ++ Stmt.assignedL f.body
+      ++ (f.defaults.flatMap Expr.stores) ++ optStores f.returns := by
+  simp [collect, List.mem_eraseDups]
+
+/-- a name bound by a statement of the body (at any depth) is an entry of the table -/
+theorem C10_bound_anywhere_is_selectable (f : FunDef) (x : String) (h : x ∈ Stmt.assignedL f.body) :
+    x ∈ (collect f).allVars := by
+  rw [mem_allVars, mem_assigned]
+  right
+  simp only [List.mem_append]
+  exact Or.inl (Or.inl (Or.inr h))
+
+/-- the statements of nested blocks contribute their bindings: except clause, with, for, try, if, while -/
+theorem C10_blocks_contribute (x : String) :
+    (∀ typ name body, x ∈ Stmt.assignedL body → x ∈ Handler.assigned (.mk typ name body))
+    ∧ (∀ typ body, x ∈ Handler.assigned (.mk typ (some x) body))
+    ∧ (∀ b hs o fin, x ∈ Handler.assignedL hs → x ∈ Stmt.assigned (.try b hs o fin))
+    ∧ (∀ c t b, x ∈ Stmt.assignedL b → x ∈ Stmt.assigned (.with c t b))
+    ∧ (∀ c t b, x ∈ t.names → x ∈ Stmt.assigned (.with c (some t) b))
+    ∧ (∀ t it b o, x ∈ t.names → x ∈ Stmt.assigned (.for t it b o))
+    ∧ (∀ t it b o, x ∈ Stmt.assignedL b → x ∈ Stmt.assigned (.for t it b o))
+    ∧ (∀ c b o, x ∈ Stmt.assignedL b → x ∈ Stmt.assigned (.ite c b o))
+    ∧ (∀ c b o, x ∈ Stmt.assignedL b → x ∈ Stmt.assigned (.while c b o)) := by
+  refine ⟨?_, ?_, ?_, ?_, ?_, ?_, ?_, ?_, ?_⟩ <;> intros <;> simp [Handler.assigned, Stmt.assigned, *]
+
+theorem C10_read_is_selectable (f : FunDef) (x : String) (h : x ∈ (collect f).used) :
+    x ∈ (collect f).allVars := by
+  rw [mem_allVars]; exact Or.inl h
+
+/-- nothing else is in the table: a name that the function neither reads nor binds is refused -/
+theorem C10_table_is_exactly_bound_or_read (f : FunDef) (x : String) :
+    x ∈ (collect f).allVars ↔ x ∈ (collect f).used ∨ x ∈ (collect f).assigned := mem_allVars _ x
+
+theorem provenance_mem (c : Collected) (x : String) :
+    c.provenance x = (if x ∈ c.external then some "external"
+      else if x ∈ c.params then some "argument"
+      else if x ∈ c.free then some "closure" else if x ∈ c.assigned then some "body" else none) := by
+  simp [Collected.provenance]
+
+theorem mem_external (c : Collected) (x : String) : x ∈ c.external ↔ x ∈ c.used ∧ x ∉ c.assigned ∧ x ∉ c.free := by
+  simp [Collected.external]
+
+theorem C10_every_entry_has_provenance (f : FunDef) (x : String) (h : x ∈ (collect f).allVars) :
+    (collect f).provenance x ≠ none := by
+  rw [mem_allVars] at h
+  rw [provenance_mem]
+  by_cases he : x ∈ (collect f).external
+  · simp [he]
+  · by_cases hp : x ∈ (collect f).params
+    · simp [he, hp]
+    · by_cases hfv : x ∈ (collect f).free
+      · simp [he, hp, hfv]
+      · by_cases ha : x ∈ (collect f).assigned
+        · simp [he, hp, hfv, ha]
+        · exfalso
+          rcases h with h | h
+          · exact he ((mem_external _ x).2 ⟨h, ha, hfv⟩)
+          · exact ha h
+
+/-- `external` = read, never bound, not a closure variable -/
+theorem C10_external_iff_read_only_global (f : FunDef) (x : String) :
+    (collect f).provenance x = some "external" ↔
+      x ∈ (collect f).used ∧ x ∉ (collect f).assigned ∧ x ∉ (collect f).free := by
+  rw [provenance_mem, ← mem_external]
+  by_cases he : x ∈ (collect f).external
+  · simp [he]
+  · simp only [he, if_false, iff_false]
+    split
+    · simp
+    · split
+      · simp
+      · split <;> simp
+
+/-- the classes are mutually exclusive by construction: one answer per name -/
+theorem C10_provenance_exclusive (f : FunDef) (x : String) (p q : String)
+    (hp : (collect f).provenance x = some p) (hq : (collect f).provenance x = some q) : p = q := by
+  rw [hp] at hq; exact Option.some.inj hq
+
+/-- a parameter is an `argument`, whatever the body does with the name afterwards -/
+theorem C10_parameter_is_argument (f : FunDef) (x : String) (h : x ∈ f.params.map (·.name)) :
+    (collect f).provenance x = some "argument" := by
+  have hp : x ∈ (collect f).params := by
+    simp only [collect, List.mem_append]
+    exact Or.inl (Or.inl (Or.inl h))
+  have ha : x ∈ (collect f).assigned := by
+    rw [mem_assigned]
+    simp only [List.mem_append]
+    exact Or.inl (Or.inl (Or.inl h))
+  have he : x ∉ (collect f).external := fun hm => ((mem_external _ x).1 hm).2.1 ha
+  rw [provenance_mem]
+  simp [he, hp]
+
+/-- a function binding names only in nested blocks:
+    `def f(p): try: (with CM() as w: pass) except E as e: (for i in p: (try: q = 1 finally: pass))` ; reads `G` -/
+def sample : FunDef :=
+  { name := "f", params := [{ name := "p", ann := none }], defaults := [], returns := none, doc := none,
+    body := [.try [.with (.call (.name "CM") []) (some (.name "w")) [.pass]]
+              [.mk (some (.name "E")) (some "e")
+                [.for (.name "i") (.name "p") [.try [.assign [.name "q"] (.int 1)] [] [] [.pass]] []]]
+              [] [],
+             .ret (some (.name "G"))],
+    freevars := [] }
+
+theorem C10_nested_blocks :
+    ["w", "e", "i", "q", "p", "G", "CM", "E"].all (fun x => (collect sample).allVars.contains x) = true
+    ∧ (collect sample).provenance "e" = some "body"
+    ∧ (collect sample).provenance "q" = some "body"
+    ∧ (collect sample).provenance "p" = some "argument"
+    ∧ (collect sample).provenance "G" = some "external"
+    ∧ (collect sample).provenance "nowhere" = none := by decide
+
 end Ptera.Props.C10
